@@ -218,14 +218,15 @@ def build(p: dict, dtype=F64, name: Optional[str] = None, **extra):
     return _build(p, dtype, name, extra)
 
 
-def _build(p: dict, dtype=F64, name: Optional[str] = None, extra=None):
-    """The real Cheetah element for a parameter record, freshly constructed."""
+def _build(p: dict, dtype=F64, name: Optional[str] = None, extra=None, tensor=None):
+    """The real Cheetah element for a parameter record, freshly constructed.  `tensor`: how the parameter tensors handed
+    to the constructor are made (default: in the working dtype); the constructor is always asked for `dtype`."""
     extra = dict(extra or {})
     c = p["cls"]
     kw = dict(dtype=dtype)
     if name is not None:
         kw["name"] = name
-    tt = lambda x: torch.tensor(x, dtype=dtype)  # noqa: E731
+    tt = tensor if tensor is not None else (lambda x: torch.tensor(x, dtype=dtype))  # noqa: E731
     if c in ("Drift", "Quadrupole", "Dipole", "RBend") and p.get("method", "cheetah") != "cheetah":
         extra = dict(extra, tracking_method=p["method"])
     if c == "Drift":
